@@ -10,18 +10,28 @@
  *                   1: harness allocation with canary bands (256 KiB each side)
  *                   2: as 1, but the allocation fails (returns FALSE) for sizes > 8 MiB
  *   seg <n1,n2,...>        read() returns at most n_i bytes (cyclic); "0" = everything available
- *   eos eof|eagain         behaviour at the end of the scripted stream
+ *   eos eof|eagain|flaky   behaviour at the end of the scripted stream (flaky: EAGAIN three times, then EOF)
  *   z <id> <hexz> <hexplain>  (for the model only; harness prints ok)
  *   init <hex>             append bytes, run rfbInitClient (listenSpecified: no connect())
  *   feed <hex>             append bytes to the server stream (no library call)
+ *   feedrep <hex> <n>      append n repetitions of the bytes (keeps scripts with 10^5 entries short)
  *   msg <hex>              append bytes, run HandleRFBServerMessage once
  *   drain                  run HandleRFBServerMessage until the stream is empty or FALSE (<=10000 calls)
  *   fill x y w h c | copy sx sy w h dx dy | bitmap x y w h <hex>   framebuffer primitives
  *   req x y w h incr       SendFramebufferUpdateRequest
  *   fbdump                 hex of the framebuffer
  *   lzo <hex>              helper for the generator: LZO1X-1 compression by the repo's minilzo
+ *   jpegrgb w h q <hexrgb> helper for the generator: JPEG (4:4:4, quality q) of the given RGB image
  *   end                    rfbClientCleanup
- * Every library call runs under a real-time watchdog (alarm): a hang prints "HANG" and exits 3.
+ * Hang detection is VIRTUAL: a library call that polls the exhausted stream (read()/select() with
+ * nothing left) more than POLL_LIMIT times prints "HANG virtual" and exits 3 -- independent of the
+ * machine's load.  A real-time alarm (VH_ALARM seconds, default 60) remains as a backstop for loops
+ * that never touch the socket; it prints "HANG realtime" and the Python side confirms it by a
+ * serial re-run before reporting it.
+ * The library's log functions format their arguments (so the sanitizer checks every %s argument)
+ * and discard the text.  After every call client->sock must still be the harness's descriptor (or
+ * closed): it is the field right behind client->buffer[RFB_BUFFER_SIZE], so an overflow of the
+ * scratch buffer that stays inside struct rfbClient is reported as SCRATCH-OVERFLOW.
  */
 #define _GNU_SOURCE
 #include <rfb/rfbclient.h>
@@ -46,7 +56,10 @@ static size_t srvo = 0;
 static vh_buf out;                 /* bytes written by the library during the current op */
 static vh_buf cb;                  /* callback log of the current op */
 static long segs[64]; static int nseg = 0, segi = 0; static long segleft = 0;
-static int eos_eagain = 0;
+static int eos_eagain = 0, eos_flaky = 0, flaky_left = 0;
+static long polls = 0;            /* read()/select() on the exhausted stream during the current library call */
+#define POLL_LIMIT 20000
+static void virtual_hang(void);
 static long nreads = 0, nselects = 0, neagain = 0;
 static unsigned char *fb_base = NULL; static size_t fb_size = 0; static int fb_mode = 0;
 static rfbBool (*orig_malloc_fb)(rfbClient *) = NULL;
@@ -63,7 +76,9 @@ ssize_t read(int fd, void *buf, size_t n) {
   if (fd != cfd || cfd < 0) return real_read(fd, buf, n);
   nreads++;
   if (SRV_LEFT == 0) {
+    if (++polls > POLL_LIMIT) virtual_hang();
     if (eos_eagain) { neagain++; errno = EAGAIN; return -1; }
+    if (eos_flaky && flaky_left > 0) { flaky_left--; neagain++; errno = EAGAIN; return -1; }
     return 0;
   }
   {
@@ -93,6 +108,7 @@ int select(int nfds, fd_set *r, fd_set *w, fd_set *e, struct timeval *t) {
     nselects++;
     if (w && FD_ISSET(cfd, w)) return 1;
     if (SRV_LEFT > 0) return 1;
+    if (++polls > POLL_LIMIT) virtual_hang();
     FD_ZERO(r);
     return eos_eagain ? 0 : 1;      /* virtual time: a timeout elapses at once */
   }
@@ -101,15 +117,24 @@ int select(int nfds, fd_set *r, fd_set *w, fd_set *e, struct timeval *t) {
 
 /* ------------------------------------------------------------------ watchdog */
 static const char *curop = "";
+static int alarm_secs = 60;
 static void on_alarm(int sig) {
-  static const char m[] = "HANG\n";
+  static const char m[] = "HANG realtime\n";
   (void)sig; real_write(1, m, sizeof m - 1); _exit(3);
 }
-static void guard_on(void) { alarm(20); }
+static void virtual_hang(void) {
+  static const char m[] = "HANG virtual\n";
+  fflush(stdout); real_write(1, m, sizeof m - 1); _exit(3);
+}
+static void guard_on(void) { polls = 0; flaky_left = eos_flaky ? 3 : 0; alarm(alarm_secs); }
 static void guard_off(void) { alarm(0); }
 
 /* ------------------------------------------------------------------ log */
-static void quiet_log(const char *fmt, ...) { (void)fmt; }
+/* formats (the sanitizer's printf interceptor checks every %s argument up to its NUL) and discards */
+static void quiet_log(const char *fmt, ...) {
+  char tmp[512]; va_list ap;
+  va_start(ap, fmt); vsnprintf(tmp, sizeof tmp, fmt, ap); va_end(ap);
+}
 static void cbf(const char *fmt, ...) {
   char tmp[256]; va_list ap; int n;
   va_start(ap, fmt); n = vsnprintf(tmp, sizeof tmp, fmt, ap); va_end(ap);
@@ -188,10 +213,12 @@ static unsigned long masked_crc(void) {
 }
 
 /* ------------------------------------------------------------------ output */
+static int scratch_ok(void) { return !cl || cfd < 0 || cl->sock == cfd || cl->sock == RFB_INVALID_SOCKET; }
 static void put_state(const char *tag, int ok) {
   printf("%s %s", tag, ok ? "T" : "F");
   if (!ok) {                       /* after FALSE the connection is dead: nothing else is observed */
     if (!canaries_ok()) printf(" CANARY-DAMAGED");
+    if (!scratch_ok()) printf(" SCRATCH-OVERFLOW");
     if (getenv("VH_VERBOSE")) { printf(" # cb="); if (cb.n) fwrite(cb.p, 1, cb.n, stdout); }
     putchar('\n');
     return;
@@ -204,6 +231,7 @@ static void put_state(const char *tag, int ok) {
   printf(" out="); vh_puthex(stdout, out.p, out.n);
   printf(" left=%lu", (unsigned long)(SRV_LEFT + ((ok && cl) ? cl->buffered : 0)));
   if (!canaries_ok()) printf(" CANARY-DAMAGED");
+  if (!scratch_ok()) printf(" SCRATCH-OVERFLOW");
   putchar('\n');
 }
 
@@ -221,6 +249,7 @@ int main(void) {
   real_write = (ssize_t (*)(int, const void *, size_t))dlsym(RTLD_NEXT, "write");
   real_select = (int (*)(int, fd_set *, fd_set *, fd_set *, struct timeval *))dlsym(RTLD_NEXT, "select");
   if (!getenv("VH_VERBOSE")) { rfbClientLog = quiet_log; rfbClientErr = quiet_log; }
+  if (getenv("VH_ALARM") && atoi(getenv("VH_ALARM")) > 0) alarm_secs = atoi(getenv("VH_ALARM"));
   while ((line = vh_readline())) {
     int n = vh_split(line, tok, 32);
     if (n == 0 || tok[0][0] == '#') continue;
@@ -258,7 +287,8 @@ int main(void) {
       puts("ok");
     } else if (!strcmp(tok[0], "eos") && n == 2) {
       eos_eagain = !strcmp(tok[1], "eagain");
-      if (cl) cl->readTimeout = eos_eagain ? 1 : 0;
+      eos_flaky = !strcmp(tok[1], "flaky");
+      if (cl) cl->readTimeout = eos_eagain ? 1 : 0;   /* flaky: no timeout (the library's default), the EAGAINs end by themselves */
       puts("ok");
     } else if (!strcmp(tok[0], "z")) {
       puts("ok");
@@ -280,6 +310,12 @@ int main(void) {
       long k; unsigned char *p = hexarg(tok[1], &k);
       if (!p) { puts("bad-op"); continue; }
       vh_buf_add(&srvb, p, (size_t)k); free(p);
+      puts("ok");
+    } else if (!strcmp(tok[0], "feedrep") && n == 3 && cl && !dead) {
+      long k, i, reps = atol(tok[2]); unsigned char *p = hexarg(tok[1], &k);
+      if (!p || reps < 0 || reps > 4000000 || k * reps > (64L << 20)) { free(p); puts("bad-op"); continue; }
+      for (i = 0; i < reps; i++) vh_buf_add(&srvb, p, (size_t)k);
+      free(p);
       puts("ok");
     } else if (!strcmp(tok[0], "msg") && n == 2 && cl && !dead) {
       long k; unsigned char *p = hexarg(tok[1], &k); rfbBool r;
@@ -325,6 +361,14 @@ int main(void) {
       if (lzo1x_1_compress(p, (lzo_uint)k, o, &ol, wrk) != LZO_E_OK) puts("bad-op");
       else { vh_puthex(stdout, o, ol); putchar('\n'); }
       free(o); free(p);
+    } else if (!strcmp(tok[0], "jpegrgb") && n == 5) {
+      int w = atoi(tok[1]), h = atoi(tok[2]), q = atoi(tok[3]); unsigned long sz = 0; long k;
+      unsigned char *rgb = hexarg(tok[4], &k), *o; tjhandle tj = tjInitCompress();
+      if (!tj || !rgb || w <= 0 || h <= 0 || k != (long)w * h * 3) { free(rgb); puts("bad-op"); continue; }
+      o = (unsigned char *)malloc(TJBUFSIZE(w, h));
+      if (tjCompress(tj, rgb, w, w * 3, h, 3, o, &sz, TJ_444, q, 0) == -1) puts("bad-op");
+      else { vh_puthex(stdout, o, sz); putchar('\n'); }
+      tjDestroy(tj); free(rgb); free(o);
     } else if (!strcmp(tok[0], "jpeg") && n == 4) {
       /* helper for the generator: JPEG image w h of pseudo-random smooth content (seed) */
       int w = atoi(tok[1]), h = atoi(tok[2]), x, y; unsigned long sz = 0;
